@@ -11,11 +11,13 @@ An estimator object is modelled by what its public methods read and write:
   and of the data only, which is exactly what "the slot holds the call" says (validated by gate K).
 * *fitted*: the configuration of the last successful `fit` (the slots in force at that moment and the fit
   arguments); `summary` and result plots read it.
-* *registers*: state that the real code sets and never resets (`_exp_model_custom`, `_specified_bound_` of
-  StochasticTMLE, `_scipy_solver_obj` of GEstimationSNM, the overwritten `self.missing` of IPMW).  A register is
-  written only by a call whose `flag` is true.  A method may be *locked* by a register (it raises once the
-  register is set).  Registers are where the real code is history-dependent; a class table without them is
-  history-independent (theorem `history_independent` in `Props/C11.lean`).
+* *registers*: state that a class sets and never resets.  A register is written only by a call whose `flag` is
+  true; a method may be *locked* by a register (it raises once the register is set).  Registers are how a
+  history-dependent class is represented; a class table without them is history-independent (theorem
+  `history_independent` in `Props/C11.lean`).  Six zEpid classes had such state (`_exp_model_custom` &c. of AIPTW and
+  TMLE, `_specified_bound_` of StochasticTMLE, `_scipy_solver_obj` of GEstimationSNM, the overwritten
+  `self.missing` of IPMW, `predicted_df` of TimeFixedGFormula after `fit_stochastic`); they were repaired in zEpid
+  and the registers were deleted from the tables below: all sixteen tables are now `clean`.
 
 `step` returns the new state and the outcome: `error` (the call raises) or `ok` with the *effective
 configuration* — the short canonical call list that determines the state the call leaves behind — and the list of
@@ -211,12 +213,12 @@ def iptw (miss : Bool) : Cls := ⟨3, 0, [
 /-- StochasticIPTW: slot 0 treatment_model -/
 def stochIptw : Cls := ⟨1, 0, [spec 0, fitS [0], resS]⟩
 
-/-- AIPTW: slots 0 exposure_model, 1 missing_model, 2 outcome_model; registers 0..2 = `_exp_model_custom`,
-    `_miss_model_custom`, `_out_model_custom` (set by a call with `custom_model`, never reset) -/
-def aiptw (miss : Bool) : Cls := ⟨3, 3, [
-  specR 0 0,            -- 0 exposure_model
-  specRIf 1 1 miss,     -- 1 missing_model
-  specR 2 2,            -- 2 outcome_model
+/-- AIPTW: slots 0 exposure_model, 1 missing_model, 2 outcome_model (the `_*_model_custom` flags are rewritten by
+    every specification call) -/
+def aiptw (miss : Bool) : Cls := ⟨3, 0, [
+  spec 0,               -- 0 exposure_model
+  specIf 1 miss,        -- 1 missing_model
+  spec 2,               -- 2 outcome_model
   fitS [0, 2],          -- 3 fit
   resS,                 -- 4 summary
   readS [0, 2],         -- 5 run_diagnostics
@@ -227,8 +229,8 @@ def aiptw (miss : Bool) : Cls := ⟨3, 3, [
   readS [0]]⟩           -- 10 plot_love
 
 /-- TMLE: as AIPTW; the plot methods guard on both models -/
-def tmle (miss : Bool) : Cls := ⟨3, 3, [
-  specR 0 0, specRIf 1 1 miss, specR 2 2,
+def tmle (miss : Bool) : Cls := ⟨3, 0, [
+  spec 0, specIf 1 miss, spec 2,
   fitS [0, 2],          -- 3 fit
   resS,                 -- 4 summary
   readS [0, 2],         -- 5 run_diagnostics
@@ -238,20 +240,20 @@ def tmle (miss : Bool) : Cls := ⟨3, 3, [
   readS [0, 2],         -- 9 plot_kde('outcome')
   readS [0, 2]]⟩        -- 10 plot_love
 
-/-- StochasticTMLE: slots 0 exposure_model, 1 outcome_model; register 0 = `_specified_bound_` (written only when
-    `bound` is given, never reset; printed by `summary`) -/
-def stochTmle : Cls := ⟨2, 1, [
-  specR 0 0,            -- 0 exposure_model
+/-- StochasticTMLE: slots 0 exposure_model, 1 outcome_model (`_specified_bound_` is rewritten by every
+    `exposure_model` call) -/
+def stochTmle : Cls := ⟨2, 0, [
+  spec 0,               -- 0 exposure_model
   spec 1,               -- 1 outcome_model
   fitS [0, 1],          -- 2 fit
   resS,                 -- 3 summary
   resS]⟩                -- 4 run_diagnostics
 
-/-- TimeFixedGFormula: slot 0 outcome_model; register 0 = `predicted_df`, written by `fit` only (flag always true):
-    after a later `fit_stochastic` it still holds the predictions of the earlier plan -/
-def timeFixed : Cls := ⟨1, 1, [
+/-- TimeFixedGFormula: slot 0 outcome_model; `fit` writes `marginal_outcome` and `predicted_df`, `fit_stochastic`
+    writes `marginal_outcome` and clears `predicted_df` -/
+def timeFixed : Cls := ⟨1, 0, [
   spec 0,               -- 0 outcome_model
-  { isFit := true, req := [0], sticky := some 0 },   -- 1 fit
+  fitS [0],             -- 1 fit
   fitS [0],             -- 2 fit_stochastic
   readS [0],            -- 3 run_diagnostics
   readS [0]]⟩           -- 4 plot_kde
@@ -259,13 +261,14 @@ def timeFixed : Cls := ⟨1, 1, [
 /-- SurvivalGFormula: slot 0 outcome_model -/
 def survival : Cls := ⟨1, 0, [spec 0, fitS [0], resS]⟩
 
-/-- GEstimationSNM: slots 0 exposure_model, 1 structural_nested_model, 2 missing_model; register 0 =
-    `_scipy_solver_obj` (set by `fit(solver='search')`, never reset).  `summary` prints the stale solver object
-    whenever it is set, through `np.str`, which the installed numpy no longer has: it raises. -/
-def snm (miss : Bool) : Cls := ⟨3, 1, [
+/-- GEstimationSNM: slots 0 exposure_model, 1 structural_nested_model, 2 missing_model.  (`summary` after a
+    `fit(solver='search')` prints the solver object through `np.str`, which the installed numpy no longer has: an
+    incompatibility with the environment, the same on a fresh object, not modelled — the harness does not ask the
+    model to predict calls failing with that message.) -/
+def snm (miss : Bool) : Cls := ⟨3, 0, [
   spec 0, spec 1, specIf 2 miss,
-  { isFit := true, req := [0, 1], sticky := some 0 },   -- 3 fit
-  { needsFit := true, lock := some 0 }]⟩                -- 4 summary
+  fitS [0, 1],          -- 3 fit
+  resS]⟩                -- 4 summary
 
 /-- IPSW: slots 0 sampling_model, 1 treatment_model -/
 def ipsw : Cls := ⟨2, 0, [spec 0, spec 1, fitS [0], resS]⟩
@@ -276,12 +279,8 @@ def gtransport : Cls := ⟨1, 0, [spec 0, fitS [0], resS]⟩
 /-- AIPSW: slots 0 sampling_model, 1 treatment_model, 2 outcome_model -/
 def aipsw : Cls := ⟨3, 0, [spec 0, spec 1, spec 2, fitS [0, 2], resS]⟩
 
-/-- IPMW with one missing variable / non-uniform monotone variables: slot 0 regression_models -/
+/-- IPMW (one missing variable, monotone variables, uniformly missing variables): slot 0 regression_models -/
 def ipmw : Cls := ⟨1, 0, [spec 0, fitS [0]]⟩
-
-/-- IPMW with a list of *uniformly* missing variables: `regression_models` overwrites `self.missing` with the
-    first variable name (register 0) and a later call with a list of models raises -/
-def ipmwUniform : Cls := ⟨1, 1, [{ writes := some 0, sticky := some 0, lock := some 0 }, fitS [0]]⟩
 
 /-- IPCW: slot 0 regression_models -/
 def ipcw : Cls := ⟨1, 0, [spec 0, fitS [0]]⟩
@@ -307,7 +306,7 @@ def clsByName (name : String) (miss : Bool) : Option Cls :=
   | "GTransportFormula" => some gtransport
   | "AIPSW" => some aipsw
   | "IPMW" => some ipmw
-  | "IPMWuniform" => some ipmwUniform
+  | "IPMWuniform" => some ipmw
   | "IPCW" => some ipcw
   | "MonteCarloGFormula" => some monteCarlo
   | "IterativeCondGFormula" => some iterCond
